@@ -18,9 +18,12 @@ Everything rests on `Tok.nextToken_ws_cut` (`Lemmas/LayoutLexer.lean`), proved f
   whitespace satisfies all but the first dialect condition unconditionally; `is_identifier_part` does
   accept U+00A0/U+1680/U+2000…/U+3000 in MySQL (`'\u{0080}'..='\u{ffff}'` are identifier characters
   there), so in MySQL those are not separators (and do not lex as whitespace either).
+  Both runs must START with such a character: an original run that starts with a comment opener
+  right after a token (`a/**/b`) is not covered (the cut lemma is symmetric in the two texts).
 * `env.isRedshift = false`: Redshift's `is_proper_identifier_inside_quotes` skips a whitespace run on
   a clone of the input and looks at the character AFTER it.  `redshift_counterexample` below is a
-  concrete violation of the property text in that dialect (comment vs blank after `[`).
+  concrete violation of the property text in that dialect (comment vs blank after `[`); on the real
+  crate `SELECT ARRAY[ /**/ x]` parses to `Array([x])` and `SELECT ARRAY[ x]` to `ARRAY AS [ x]`.
 * `w₂` must lex as whitespace *in front of `b`* (`h2`), not on its own: `" --x "` is blank-padded and
   lexes on its own as whitespace only, but swallows `b` (`unterminated_line_comment_counterexample`).
   For a `w₂` whose last token is a one-character blank or ends in `\n` the two coincide.
@@ -155,6 +158,81 @@ theorem layout_lexer_sig (env : Env) (hrs : env.isRedshift = false) (a w₁ w₂
     hc₁ hc₂ hs₁ hs₂ hcr
   exact ⟨_, _, h1, h, hs⟩
 
+/-! ## `w₂` given on its own -/
+
+/-- a blank, tab or line feed is a token of its own whatever follows -/
+theorem blank_self_delimiting (env : Env) (d : Nat) (hd : d = 32 ∨ d = 9 ∨ d = 10) (b : List Nat) :
+    ∃ k, nextToken env (d :: b) = .ok (some (.whitespace k, b)) := by
+  rcases hd with rfl | rfl | rfl
+  · exact ⟨.space, by simp [nextToken, lexHead]⟩
+  · exact ⟨.tab, by simp [nextToken, lexHead]⟩
+  · exact ⟨.newline, by simp [nextToken, lexHead]⟩
+
+/-- **layout_lexer, `w₂` lexed on its own.**  As `layout_lexer`, but the replacement run is described
+by its own tokenization `W₂ᵢ ++ [last]`: all whitespace tokens, the last one being the one-character
+token of a blank, tab or line feed `d₂` (this is what "blank-padded" has to mean: a trailing line
+comment without its `\n` would swallow `b`, see `unterminated_line_comment_counterexample`). -/
+theorem layout_lexer_standalone (env : Env) (hrs : env.isRedshift = false) (a w₁ w₂ b : List Nat)
+    (A W B Wi : List (Entry Token)) (last : Entry Token) (d₂ : Nat)
+    (h1 : tokenizeSpans env (a ++ w₁ ++ b) = .ok (A ++ W ++ B))
+    (hA : slices A = a) (hW : slices W = w₁) (hWws : ∀ e ∈ W, isWsTok e.tok = true)
+    (hw₂ : tokenizeSpans env w₂ = .ok (Wi ++ [last])) (hWiws : ∀ e ∈ Wi, isWsTok e.tok = true)
+    (hlast : last.slice = [d₂]) (hd₂ : d₂ = 32 ∨ d₂ = 9 ∨ d₂ = 10) (hsd : Sep env d₂)
+    (c₁ c₂ : Nat) (hc₁ : w₁.head? = some c₁) (hc₂ : w₂.head? = some c₂)
+    (hs₁ : Sep env c₁) (hs₂ : Sep env c₂)
+    (hcr : a.getLast? = some 13 → c₂ = 10 → c₁ = 10) :
+    ∃ R', tokenizeSpans env (a ++ w₂ ++ b) = .ok (A ++ R') ∧
+      sig (A ++ R') = sig (A ++ W ++ B) := by
+  -- the tokens of `b` on its own
+  have tile1 := (tokLoop_inv (nextToken_ok env) _ _ _ _ h1).1
+  have hB : slices B = b := by
+    simp only [slices_append, hA, hW] at tile1
+    exact List.append_cancel_left tile1
+  obtain ⟨_, P, hP, _⟩ := C09.suffix_stable env _ (A ++ W) B h1
+  rw [hB] at hP
+  -- `w₂ = slices Wi ++ [d₂]`
+  have tile2 := (tokLoop_inv (nextToken_ok env) _ _ _ _ hw₂).1
+  have hw₂eq : w₂ = slices Wi ++ d₂ :: [] := by
+    rw [← tile2]; simp [hlast]
+  obtain ⟨k, hk⟩ := blank_self_delimiting env d₂ hd₂ b
+  -- tokens of `d₂ :: b` at any location
+  have hdb : ∀ loc, ∃ Q, tokLoop (nextToken env) ((slices Wi ++ d₂ :: b).length + 1 - Wi.length) (d₂ :: b) loc =
+      .ok ((Token.whitespace k, loc, [d₂]) :: Q) := by
+    intro loc
+    have inv := tokLoop_inv (nextToken_ok env) _ _ _ _ hw₂
+    have hWine : ∀ e ∈ Wi, e.slice ≠ [] := fun e he => inv.2.1 e (List.mem_append_left _ he)
+    have hlen := length_le_of_nonempty_slices Wi hWine
+    obtain ⟨n, hn⟩ : ∃ n, (slices Wi ++ d₂ :: b).length + 1 - Wi.length = n + 1 ∧ b.length < n := by
+      refine ⟨(slices Wi ++ d₂ :: b).length - Wi.length, ?_, ?_⟩ <;> simp <;> omega
+    obtain ⟨Q, hQ, _⟩ := tokLoop_loc_irrel (nextToken_ok env) _ _ _ _ hP n (advance loc [d₂]) hn.2
+    refine ⟨Q, ?_⟩
+    rw [hn.1]
+    have hc : consumed (d₂ :: b) b = [d₂] := consumed_append [d₂] b
+    simp only [tokLoop, hk, hc, hQ]
+  -- the tokens of `w₂ ++ b`
+  have hw₂' : tokenizeSpans env (slices Wi ++ d₂ :: []) = .ok (Wi ++ [last]) := by rw [← hw₂eq]; exact hw₂
+  obtain ⟨Q, hQ⟩ := hdb (advance ⟨1, 1⟩ (slices Wi))
+  have inv := tokLoop_inv (nextToken_ok env) _ _ _ _ hw₂
+  have hWine : ∀ e ∈ Wi, e.slice ≠ [] := fun e he => inv.2.1 e (List.mem_append_left _ he)
+  have hlen := length_le_of_nonempty_slices Wi hWine
+  have h2 : tokenizeSpans env (slices Wi ++ d₂ :: b) =
+      .ok (Wi ++ (Token.whitespace k, advance ⟨1, 1⟩ (slices Wi), [d₂]) :: Q) := by
+    refine tokLoop_cut (nextToken_ok env) [] Wi (slices Wi) ?_ _ _ ⟨1, 1⟩ [last] _ hw₂' (by simp)
+      (by simp; omega) (by simpa using hQ)
+    intro s t r _ e
+    exact nextToken_ws_cut hsd hsd hrs s t r (fun _ h => h) e
+  have tileQ := (tokLoop_inv (nextToken_ok env) _ _ _ _ h2).1
+  have hw₂b : w₂ ++ b = slices Wi ++ d₂ :: b := by rw [hw₂eq]; simp
+  have h2' : tokenizeSpans env (w₂ ++ b) =
+      .ok ((Wi ++ [(Token.whitespace k, advance ⟨1, 1⟩ (slices Wi), [d₂])]) ++ Q) := by
+    rw [hw₂b, h2]; simp
+  refine layout_lexer env hrs a w₁ w₂ b A W B _ Q h1 hA hW hWws h2' ?_ ?_ c₁ c₂ hc₁ hc₂ hs₁ hs₂ hcr
+  · rw [hw₂eq]; simp [Entry.slice]
+  · intro e he
+    rcases List.mem_append.1 he with he | he
+    · exact hWiws e he
+    · simp at he; subst he; rfl
+
 /-! ## composition with the parser half -/
 
 /-- the token vector handed to the parser -/
@@ -219,6 +297,30 @@ theorem at_sharp_percent_treat_whitespace_alike (env : Env) (c : Nat) (x : List 
   · simp [lexQuestion, *]
   · simp [lexQuestionPg, *]
 
+/-! ## discharging `Sep` -/
+
+/-- all 13 built-in dialect rows: no ASCII blank continues an identifier or a custom operator -/
+theorem builtin_blanks (r : DialectRow) (hr : r ∈ dialects) (c : Nat) (hc : c ∈ [9, 10, 11, 12, 13, 32]) :
+    r.asciiIdentPart.getD c false = false ∧ r.asciiCustomOp.getD c false = false ∧
+    asciiIsWhitespace.getD c false = true ∧ asciiIsNumeric.getD c false = false ∧
+    asciiIsAlphanumeric.getD c false = false := by
+  revert r c
+  decide +kernel
+
+/-- an ASCII blank is a separator of every `env` that agrees at that character with the tables of a
+built-in row and of Rust's `char` predicates (as tabulated from the running code) -/
+theorem sep_of_tables (env : Env) (r : DialectRow) (hr : r ∈ dialects) (c : Nat)
+    (hc : c ∈ [9, 10, 11, 12, 13, 32])
+    (h1 : env.isWhitespace c = asciiIsWhitespace.getD c false)
+    (h2 : env.isIdentPart c = r.asciiIdentPart.getD c false)
+    (h3 : env.isCustomOpPart c = r.asciiCustomOp.getD c false)
+    (h4 : env.isNumeric c = asciiIsNumeric.getD c false)
+    (h5 : env.isAlphanumeric c = asciiIsAlphanumeric.getD c false) : Sep env c := by
+  obtain ⟨b1, b2, b3, b4, b5⟩ := builtin_blanks r hr c hc
+  refine ⟨by rw [h1, b3], ?_, by rw [h2, b1], by rw [h3, b2], by rw [h4, b4], by rw [h5, b5]⟩
+  simp only [List.mem_cons, List.not_mem_nil, or_false] at hc
+  omega
+
 /-! ## non-vacuity, and the exceptions as concrete witnesses -/
 
 open C09 (genericEnv asciiBit)
@@ -232,7 +334,8 @@ theorem generic_sep (un : Bool) : Sep (genericEnv un) 32 ∧ Sep (genericEnv un)
 theorem generic_not_redshift (un : Bool) : (genericEnv un).isRedshift = false := by
   cases un <;> decide +kernel
 
-private def toks (env : Env) (s : List Nat) : Option (List Token) :=
+/-- significant tokens of a text (`none` if lexing fails) -/
+def sigOf (env : Env) (s : List Nat) : Option (List Token) :=
   (tokenizeSpans env s).toOption.map sig
 
 /-- the cut lemma at work on the deepest look-ahead, `1e+␠5` vs `1e+⏎x`: `Number 1` in both -/
@@ -242,8 +345,8 @@ example : (nextToken (genericEnv true) [49, 101, 43, 32, 53]).toOption =
       some (some (.number [49] false, [101, 43, 10, 120])) := by decide +kernel
 
 /-- `SELECT␠a␠FROM t` with the second run replaced by `⏎/* c */⇥-- d⏎`: same significant tokens -/
-example : toks (genericEnv true) ([83, 69, 76, 69, 67, 84, 32, 97] ++ [32] ++ [70, 82, 79, 77, 32, 116]) =
-    toks (genericEnv true) ([83, 69, 76, 69, 67, 84, 32, 97] ++
+example : sigOf (genericEnv true) ([83, 69, 76, 69, 67, 84, 32, 97] ++ [32] ++ [70, 82, 79, 77, 32, 116]) =
+    sigOf (genericEnv true) ([83, 69, 76, 69, 67, 84, 32, 97] ++
       [10, 47, 42, 32, 99, 32, 42, 47, 9, 45, 45, 32, 100, 10] ++ [70, 82, 79, 77, 32, 116]) := by
   decide +kernel
 
@@ -275,6 +378,76 @@ example : ∃ R', tokenizeSpans (genericEnv true) ([49] ++ [10, 47, 42, 42, 47, 
   rw [hs]
   decide +kernel
 
+/-- the same replacement with `w₂` lexed on its own (`layout_lexer_standalone`): its tokens are
+`Newline`, the empty block comment, and the final one-character `Space` -/
+example : ∃ R', tokenizeSpans (genericEnv true) ([49] ++ [10, 47, 42, 42, 47, 32] ++ [50]) =
+      .ok ((splitAt3 (genericEnv true) [49, 32, 50] 1 1).1 ++ R') ∧
+    sig ((splitAt3 (genericEnv true) [49, 32, 50] 1 1).1 ++ R') =
+      sig ((splitAt3 (genericEnv true) [49, 32, 50] 1 1).1 ++ (splitAt3 (genericEnv true) [49, 32, 50] 1 1).2.1 ++
+        (splitAt3 (genericEnv true) [49, 32, 50] 1 1).2.2) :=
+  layout_lexer_standalone (genericEnv true) (generic_not_redshift true) [49] [32]
+    [10, 47, 42, 42, 47, 32] [50]
+    (splitAt3 (genericEnv true) [49, 32, 50] 1 1).1 (splitAt3 (genericEnv true) [49, 32, 50] 1 1).2.1
+    (splitAt3 (genericEnv true) [49, 32, 50] 1 1).2.2
+    (splitAt3 (genericEnv true) [10, 47, 42, 42, 47, 32] 2 0).1
+    (.whitespace .space, ⟨2, 5⟩, [32]) 32
+    (ok_of_toOption (by decide +kernel)) (by decide +kernel) (by decide +kernel) (by decide +kernel)
+    (ok_of_toOption (by decide +kernel)) (by decide +kernel) rfl (Or.inl rfl) (generic_sep true).1
+    32 10 rfl rfl (generic_sep true).1 (generic_sep true).2.2.1 (by decide)
+
+/-- the MySQL row with Rust's predicates on ASCII -/
+def mysqlEnv : Env :=
+  { genericEnv true with
+    row := dialect_mysql
+    isIdentStart := asciiBit dialect_mysql.asciiIdentStart
+    isIdentPart := asciiBit dialect_mysql.asciiIdentPart
+    isDelimStart := asciiBit dialect_mysql.asciiDelimStart
+    isCustomOpPart := asciiBit dialect_mysql.asciiCustomOp }
+
+/-- a whitespace-skipping program: exactly two numbers -/
+private def twoNums : Cursor.Prog Token Bool :=
+  .next fun a => .next fun b => .peek 0 fun c =>
+    match a, b, c with
+    | some (.number _ _), some (.number _ _), none => .ret true
+    | _, _, _ => .err 7 (some 1)
+
+private theorem twoNums_skipping : Cursor.Skipping twoNums :=
+  .next _ fun _ => .next _ fun _ => .peek _ _ fun _ => by split <;> constructor
+
+/-- `layout_parse` on `1␠2` / `1⏎/**/␠2`: both are accepted with the same value -/
+example : ∃ ts ts', tokenizeSpans (genericEnv true) ([49] ++ [32] ++ [50]) = .ok ts ∧
+    tokenizeSpans (genericEnv true) ([49] ++ [10, 47, 42, 42, 47, 32] ++ [50]) = .ok ts' ∧
+    (Cursor.runC isWsTok twoNums ⟨toTL ts, 0⟩ (fun _ => 0) []).shape = some (.inl true) ∧
+    (Cursor.runC isWsTok twoNums ⟨toTL ts', 0⟩ (fun _ => 0) []).shape = some (.inl true) := by
+  obtain ⟨ts, ts', e1, e2, hs⟩ := layout_parse (genericEnv true) (generic_not_redshift true) [49] [32]
+    [10, 47, 42, 42, 47, 32] [50]
+    (splitAt3 (genericEnv true) [49, 32, 50] 1 1).1 (splitAt3 (genericEnv true) [49, 32, 50] 1 1).2.1
+    (splitAt3 (genericEnv true) [49, 32, 50] 1 1).2.2
+    (splitAt3 (genericEnv true) [10, 47, 42, 42, 47, 32, 50] 3 0).1
+    (splitAt3 (genericEnv true) [10, 47, 42, 42, 47, 32, 50] 3 0).2.2
+    (ok_of_toOption (by decide +kernel)) (by decide +kernel) (by decide +kernel) (by decide +kernel)
+    (ok_of_toOption (by decide +kernel)) (by decide +kernel) (by decide +kernel)
+    32 10 rfl rfl (generic_sep true).1 (generic_sep true).2.2.1 (by decide) twoNums twoNums_skipping
+  have e1' : tokenizeSpans (genericEnv true) ([49] ++ [32] ++ [50]) =
+      .ok ((tokenizeSpans (genericEnv true) [49, 32, 50]).toOption.getD []) :=
+    ok_of_toOption (by decide +kernel)
+  have : ts = (tokenizeSpans (genericEnv true) [49, 32, 50]).toOption.getD [] := by
+    rw [e1] at e1'; cases e1'; rfl
+  refine ⟨ts, ts', e1, e2, ?_, ?_⟩
+  · rw [this]; decide +kernel
+  · rw [← hs, this]; decide +kernel
+
+/-- `sep_of_tables` yields the separator property of form feed for the MySQL row -/
+example : Sep mysqlEnv 12 :=
+  sep_of_tables _ dialect_mysql (by simp [dialects]) 12 (by decide) (by decide +kernel) rfl rfl (by decide +kernel)
+    (by decide +kernel)
+
+/-- `@`/`#` followed by `\r`, tab, `\n` (not only by a blank) are `AtSign`/`Sharp` -/
+example : (nextToken (genericEnv true) [64, 13, 97]).toOption = some (some (.atSign, [13, 97])) ∧
+    (nextToken (genericEnv true) [64, 9, 97]).toOption = some (some (.atSign, [9, 97])) ∧
+    (nextToken (genericEnv true) [35, 10, 97]).toOption = some (some (.sharp, [10, 97])) := by
+  decide +kernel
+
 /-- the Redshift row with Rust's predicates on ASCII -/
 def redshiftEnv : Env :=
   { genericEnv true with
@@ -289,19 +462,19 @@ the blank run is `/`, so `[` is not a delimiter); with the run replaced by one b
 delimited identifier ` x`.  Both runs lex as whitespace on their own, are blank-padded, and sit
 between two tokens of the first text. -/
 theorem redshift_counterexample :
-    toks redshiftEnv ([91] ++ [32, 47, 42, 42, 47, 32] ++ [120, 93]) =
+    sigOf redshiftEnv ([91] ++ [32, 47, 42, 42, 47, 32] ++ [120, 93]) =
       some [.lBracket, .word ⟨[120], none, none⟩, .rBracket] ∧
-    toks redshiftEnv ([91] ++ [32] ++ [120, 93]) = some [.word ⟨[32, 120], some 91, none⟩] ∧
-    toks redshiftEnv [32, 47, 42, 42, 47, 32] = some [] ∧ toks redshiftEnv [32] = some [] := by
+    sigOf redshiftEnv ([91] ++ [32] ++ [120, 93]) = some [.word ⟨[32, 120], some 91, none⟩] ∧
+    sigOf redshiftEnv [32, 47, 42, 42, 47, 32] = some [] ∧ sigOf redshiftEnv [32] = some [] := by
   decide +kernel
 
 /-- **blank-padded is not enough for line comments**: `␠--x␠` lexes on its own as whitespace only and
 starts and ends with a blank, yet in `1␠--x␠2` it swallows `2` (the comment ends at `\n` or at the end
 of input).  Hence `h2` of `layout_lexer` speaks about `w₂ ++ b`. -/
 theorem unterminated_line_comment_counterexample :
-    toks (genericEnv true) [32, 45, 45, 120, 32] = some [] ∧
-    toks (genericEnv true) ([49] ++ [32] ++ [50]) = some [.number [49] false, .number [50] false] ∧
-    toks (genericEnv true) ([49] ++ [32, 45, 45, 120, 32] ++ [50]) = some [.number [49] false] := by
+    sigOf (genericEnv true) [32, 45, 45, 120, 32] = some [] ∧
+    sigOf (genericEnv true) ([49] ++ [32] ++ [50]) = some [.number [49] false, .number [50] false] ∧
+    sigOf (genericEnv true) ([49] ++ [32, 45, 45, 120, 32] ++ [50]) = some [.number [49] false] := by
   decide +kernel
 
 /-- `\r` then `␠` are two tokens, `\r` then `\n` is one: the side condition `hcr` of the cut lemma is
@@ -311,7 +484,7 @@ theorem cr_lf_regroups :
       some [[97], [13], [32], [98]] ∧
     (tokenizeSpans (genericEnv true) [97, 13, 10, 98]).toOption.map (fun ts => ts.map fun (e : Entry Token) => e.slice) =
       some [[97], [13, 10], [98]] ∧
-    toks (genericEnv true) [97, 13, 32, 98] = toks (genericEnv true) [97, 13, 10, 98] := by
+    sigOf (genericEnv true) [97, 13, 32, 98] = sigOf (genericEnv true) [97, 13, 10, 98] := by
   decide +kernel
 
 end SqlVerif.Props.C07Lexer
